@@ -679,7 +679,7 @@ theorem stepFn_ok (hP : C.P.NoPanic) (hL : C.P.LangNonEmpty) {x : Ectx} {k : Con
         · intro f h; simp at h; rcases h with rfl | rfl <;> exact ⟨⟨hx, by first | trivial | exact hk⟩, rfl⟩
         · intro f h; simp at h; subst h; exact ⟨⟨hx, hk⟩, rfl⟩
       · refine outOK_noemit ?_ ?_
-        · intro f h; simp at h; rcases h with rfl | rfl | rfl | rfl <;> exact ⟨⟨hx, by first | trivial | exact hk⟩, rfl⟩
+        · intro f h; simp at h; rcases h with rfl | rfl | rfl | rfl | rfl <;> exact ⟨⟨hx, by first | trivial | exact hk⟩, rfl⟩
         · intro f h; simp at h; subst h; exact ⟨⟨hx, hk⟩, rfl⟩
   | triplesEnd =>
     simp only [stepFn]
@@ -885,7 +885,7 @@ theorem stepFn_ok (hP : C.P.NoPanic) (hL : C.P.LangNonEmpty) {x : Ectx} {k : Con
         · intro f h; simp at h; rcases h with rfl | rfl <;> exact ⟨⟨hx, by first | trivial | exact hk⟩, rfl⟩
         · intro f h; simp at h; subst h; exact ⟨⟨hx, hk⟩, rfl⟩
       · refine outOK_noemit ?_ ?_
-        · intro f h; simp at h; rcases h with rfl | rfl | rfl | rfl <;> exact ⟨⟨hx, by first | trivial | exact hk⟩, rfl⟩
+        · intro f h; simp at h; rcases h with rfl | rfl | rfl | rfl | rfl <;> exact ⟨⟨hx, by first | trivial | exact hk⟩, rfl⟩
         · intro f h; simp at h; subst h; exact ⟨⟨hx, hk⟩, rfl⟩
 
 end RdfModel.TtlDoc
